@@ -231,6 +231,10 @@ def install(eng):
         """max/min with key= / default= on a concrete collection"""
         if set(k) - {"key", "default"}:
             raise PyRaise(PyExc(TypeError, ("unexpected keyword",)))
+        if len(a) == 1 and isinstance(a[0], SymSeq) and set(k) == {"default"}:
+            if eng.truth(wrap(to_term(a[0].length) > 0)):
+                return _seq_extreme(a[0], is_max)
+            return k["default"]
         vals = list(a) if len(a) > 1 else eng.iterate(a[0])
         if not isinstance(vals, (list, tuple)):
             raise Unsupported("max/min with key/default on a symbolic collection")
@@ -327,7 +331,11 @@ def install(eng):
             r = eng.models["sorted"](v, key, reverse)
             if r is not NotImplemented:
                 return r
-        items = eng.iterate(v)
+        eng._order_insensitive = True  # sorted() of a set does not depend on the set's iteration order
+        try:
+            items = eng.iterate(v)
+        finally:
+            eng._order_insensitive = False
         if isinstance(reverse, Sym):
             raise Unsupported("symbolic reverse flag on concrete sort")
         keys = [eng.call(key, [x], {}) if key is not None else x for x in items]
